@@ -369,7 +369,13 @@ func runUnguardedRules(p *Program, id string) ([]*Gen, []string) {
 						fmt.Sscanf(parts[0], "%d", &an)
 						if c, isCall := in.(*ssa.Call); isCall && len(parts) == 2 && an < len(c.Call.Args) {
 							got := valuePath(c.Call.Args[an])
-							if !pathMatches(got, parts[1]) {
+							okAlt := false
+							for _, alt := range strings.Split(parts[1], " OR ") {
+								if pathMatches(got, strings.TrimSpace(alt)) {
+									okAlt = true
+								}
+							}
+							if !okAlt {
 								o.Pre = "sat"
 								o.Model = fmt.Sprintf("argument %d is %s, expected %s", an, got, parts[1])
 							}
